@@ -103,6 +103,42 @@ def consist_getters_case(comp):
     return [c1, c2]
 
 
+def trip_getters_cases(days):
+    """SpeedLimitTrainSim trip-level outputs: the run totals scaled only by the documented annualisation factor
+    (365.25 / simulation_days, 365.25 when the days are not given, 1 when not annualising)"""
+    comp = "CB"
+    recv = slts_tmpl(consist_tmpl(comp))
+    recv["simulation_days"] = Sym("days", "int") if days else None
+    P = lambda j, ch: f"loco_con.loco_vec.{j}.loco_type." + {"C": "ConventionalLoco.", "B": "BatteryElectricLoco."}[ch]
+
+    def assume(S):
+        return [("simulation_days >= 1", z3.And(S["days"] >= 1, S["days"] <= 100000))] if days else []
+
+    def factor(c):
+        ann = c.S["annualize"]
+        from values import is_z3 as _isz
+        sym = any(_isz(v) for v in c.S.values())
+        yr = z3.RealVal("365.25") if sym else 365.25
+        full = (yr / z3.ToReal(c.S["days"]) if sym else yr / c.S["days"]) if days else yr
+        return IF(ann, full, 1)
+
+    fuel = lambda c: sum(c.pre[P(j, ch) + "fc.state.energy_fuel"] for j, ch in enumerate(comp) if ch == "C")
+    res = lambda c: sum(c.pre[P(j, ch) + "res.state.energy_out_chemical"] for j, ch in enumerate(comp) if ch == "B")
+    km = lambda c: c.pre["state.total_dist"] / 1000
+    specs = [
+        ("get_kilometers", lambda c: km(c) * factor(c), "trip distance = total distance [km] * annualisation factor", "trip_km"),
+        ("get_megagram_kilometers", lambda c: c.pre["state.mass_freight"] / 1000 * km(c) * factor(c), "trip tonne-km = freight mass [Mg] * total distance [km] * annualisation factor", "trip_tonne_km"),
+        ("get_energy_fuel", lambda c: fuel(c) * factor(c), "trip fuel energy = sum of the engines' cumulative fuel energy * annualisation factor", "trip_fuel"),
+        ("get_net_energy_res", lambda c: res(c) * factor(c), "trip net battery energy = sum of the batteries' cumulative chemical energy * annualisation factor", "trip_res"),
+    ]
+    out = []
+    for (fn, exp, text, role) in specs:
+        out.append(Case(f"trip_{fn}_{'days' if days else 'nodays'}", "C11", "SpeedLimitTrainSim", recv, [Call(f"SpeedLimitTrainSim::{fn}", [("bool", Sym("annualize", "bool"))])], assume,
+                        [Claim(text, lambda c, exp=exp: EQ(c.retval(), exp(c)), when="ret", role=role), Claim("no_panic", None, when="nopanic")],
+                        bounds={"consist": comp, "simulation_days": "Some(d), d symbolic >= 1" if days else "None", "annualize": "symbolic bool"}, check_side=False))
+    return out
+
+
 def speed_limit_wheel_power_case(dtv=1, mass=1000):
     """SpeedLimitTrainSim::solve_required_pwr: the wheel power the train demands stays inside what the consist published, and the
     cumulative wheel energy and its positive / negative parts are advanced by exactly that power"""
@@ -127,7 +163,7 @@ def speed_limit_wheel_power_case(dtv=1, mass=1000):
 
 
 def m_cases(tier):
-    return [speed_limit_wheel_power_case()] + _m_cases(tier)
+    return trip_getters_cases(True) + trip_getters_cases(False) + [speed_limit_wheel_power_case()] + _m_cases(tier)
 
 
 def _m_cases(tier):
